@@ -416,7 +416,8 @@ theorem hide_requests_counterexample : ¬ hide_requests_full Fixes.none := by
     that the library survives, the terminal cursor is what `cursorSpec` says of the tree.
     False of `Fixes.none` (the four counterexamples above are such histories).  For the repaired source it is PROVED
     (`history_cursor` below) for every history of the library's operations that does not move the root window; such a
-    move is outside C01's proviso (the root's geometry follows the terminal), and that is all that keeps this a `def`. -/
+    move is outside C01's proviso (the root has no parent to expose in; its geometry follows the terminal), and with it
+    the statement is false (`history_full_root_move_counterexample`) — that is all that keeps this a `def`. -/
 def history_full (fx : Fixes) : Prop :=
   ∀ (l c : Int) (ops : List Op) (s : HSt), 0 < l → 0 < c →
     runOps fx { tree := newRoot l c } (ops ++ [.flush]) = .ok s → s.term.matches (cursorSpec s.tree) = true
@@ -435,6 +436,18 @@ theorem history_cursor (fx : Fixes) (hfx1 : fx.hiddenRoot = true) (hfx2 : fx.cha
     (h : runOps fx { tree := newRoot l c } (ops ++ [.flush]) = .ok s) :
     s.term.matches (cursorSpec s.tree) = true :=
   WinFocus.history_cursor hfx1 hfx2 l c hl hc ops hplain s h
+
+/-- Why `history_full` keeps the restriction: `tickit_window_set_geometry` on the *root* window (which has no parent in
+    which the proviso's exposes could be made) changes every absolute position and requests nothing; the next flush
+    leaves the cursor where it was.  Replayed on the library: `new 6 10; win 1 0 1 1 3 3 0; curpos 1 1 1; focus 1; flush;
+    geom 0 1 0 6 10; flush` — the cursor stays at 2,2 where `cursorSpec` says 3,2.  (The library itself only resizes the
+    root, from the terminal's resize event, keeping it at 0,0.) -/
+theorem history_full_root_move_counterexample : ¬ history_full Fixes.all := by
+  intro h
+  have := h 6 10 [.newWin 0 ⟨1, 1, 3, 3⟩ false false false false, .curpos 1 1 1, .focus 1, .flush, .move 0 ⟨1, 0, 6, 10⟩]
+    _ (by decide) (by decide) rfl
+  revert this
+  decide
 
 /-- … and at every flush in the middle of such a history too: the invariant `HInv` (store and flags in order, only
     restacking requests queued, cursor right or a restore pending) holds after every operation, and after a flush the
